@@ -88,6 +88,8 @@ type c20cWorld struct {
 	log     []c20cEntry
 	pools   []*config.Pools
 	curP    int
+	given   sync.Map              // *v1.Service handed to a handler -> the spec it was copied with
+	seen    map[string]vw.SvcSpec // the spec the controller was last given for each service (under logMu); a delivery may carry a snapshot older than the store
 }
 
 type c20cEntry struct {
@@ -118,7 +120,7 @@ func (f c20cClient) UpdateStatus(svc *v1.Service) error {
 }
 
 func newC20cWorld(c c20cCase) (*c20cWorld, error) {
-	w := &c20cWorld{store: map[string]*v1.Service{}, specs: map[string]vw.SvcSpec{}}
+	w := &c20cWorld{store: map[string]*v1.Service{}, specs: map[string]vw.SvcSpec{}, seen: map[string]vw.SvcSpec{}}
 	w.c = &controller{ips: allocator.New(func(string) {})}
 	w.c.client = c20cClient{w}
 	for _, cl := range c.Configs {
@@ -135,6 +137,13 @@ func newC20cWorld(c c20cCase) (*c20cWorld, error) {
 				snap = svc.DeepCopy()
 			}
 			w.logf(c20cEntry{Kind: "S", Key: name, Svc: snap})
+			w.logMu.Lock()
+			if sp, ok := w.given.LoadAndDelete(svc); ok && svc != nil {
+				w.seen[name] = sp.(vw.SvcSpec)
+			} else if svc == nil {
+				delete(w.seen, name)
+			}
+			w.logMu.Unlock()
 			return w.c.SetBalancer(l, name, svc, eps)
 		},
 		PoolChanged: func(l log.Logger, p *config.Pools) controllers.SyncState {
@@ -188,6 +197,7 @@ func (w *c20cWorld) deliver(key string) bool {
 	w.storeMu.Lock()
 	if o := w.store[key]; o != nil {
 		svc = o.DeepCopy()
+		w.given.Store(svc, w.specs[key])
 	}
 	w.storeMu.Unlock()
 	return w.h.Service(log.NewNopLogger(), key, svc, nil) == controllers.SyncStateReprocessAll
@@ -345,9 +355,12 @@ func runC20c(c c20cCase, tr *vw.Trace) *vw.Violation {
 			return vw.Violationf("negative-counter-at-rest", "after all handlers returned pool %s reports %+v", p, ct)
 		}
 	}
-	// at rest no address may be held by two services that may not share it (allocator records and statuses)
+	// at rest no address may be held by two services that may not share it (allocator records and statuses), judged
+	// by the spec the controller was last GIVEN for each service: a delivery carries the object as it was read, and
+	// with two service workers a full pass of one worker can hand over a snapshot that the other worker's update
+	// has already overtaken (the property speaks of the handlers run "in the order in which they took effect")
 	mem, st := vw.Holders{}, vw.Holders{}
-	for k, sp := range w.specs {
+	for k, sp := range w.seen {
 		if ips := w.c.ips.IPs(k); len(ips) > 0 {
 			mem[k] = vw.HolderOf(sp, ipsToAddrs(ips), w.c.ips.Pool(k))
 		}
